@@ -89,6 +89,10 @@ type Op struct {
 	PathStyle int    `json:"path_style,omitempty"` // 0: the route as registered; >0: an unusual spelling of its path (see oddPath)
 }
 
+// slowPoints: hook points one of which a run may stall (RunConfig.SlowPoint).
+var slowPoints = []string{"JobCompleted", "JobCompleted", "HandleTaskChange", "HandleStageChange", "StartDelayedJob", "cancel.go", "sched.loop", "sched.loop",
+	"stage.go", "ScheduleAsync", "CancelJob", "SaveToStore", "task.exec", "store.save", "ReplaceDefinitions"}
+
 // RunConfig: fault kinds, weights and component selection of a run (swarm style).
 type RunConfig struct {
 	Store     string `json:"store"` // none | mem | json
@@ -100,6 +104,7 @@ type RunConfig struct {
 	WAdvance  int    `json:"w_advance"`      // weight of letting time pass
 	WSettle   int    `json:"w_settle"`       // weight of a settle-and-check action
 	WCrash    int    `json:"w_crash,omitempty"`
+	SlowPoint string `json:"slow_point,omitempty"` // swarm: goroutines parked at this hook point are released 8 times less often (a stalled step widens the windows around it)
 	PFail     int    `json:"p_fail,omitempty"`      // per mille: a task fails
 	PExit0    int    `json:"p_exit0,omitempty"`     // per mille: a cancelled task still exits 0
 	PIOErr    int    `json:"p_ioerr,omitempty"`     // per mille: log writer cannot be opened
@@ -532,6 +537,9 @@ func Generate(seed uint64, profile string, faults bool) *Scenario {
 		o.delayPermille = 400
 		o.delayChoice = []int{50, 300, 2000}
 		cfg.WSettle = 1
+	}
+	if g.p(400) {
+		cfg.SlowPoint = slowPoints[g.n(len(slowPoints))]
 	}
 	if faults {
 		cfg.PFail = g.oneOf(0, 100, 250)
